@@ -12,6 +12,16 @@ pub fn story_to_json_string(
     count_all_visits: bool,
 ) -> Result<String, CompilerError> {
     let json = story_to_json_value(story, count_all_visits)?;
+
+    // A story the runtime refuses to load is not a compiled story
+    if crate::nesting::json_depth(&json) > crate::nesting::MAX_STORY_NESTING {
+        return Err(CompilerError::invalid_source(format!(
+            "the compiled story nests deeper than the {} levels the runtime can load \
+             (a very long weave of choices and gathers does that: split it into knots)",
+            crate::nesting::MAX_STORY_NESTING
+        )));
+    }
+
     serde_json::to_string(&json).map_err(|error| {
         CompilerError::invalid_source(format!("failed to serialize compiled ink: {error}"))
     })
